@@ -5,5 +5,4 @@ McPaySenders == {<<>>, <<50, 50>>}
 McBoxCfgs == {<<>>, <<50, 50>>, <<49, 51>>}
 McNewCfgs == {<<100>>, <<50, 50>>}
 McPlainOnly == {<<>>}
-View == <<cfg, cur, acc>>
 ====
